@@ -92,12 +92,11 @@ theorem xor_split {us : List Ux} {ids : List Id} {l : List Ux}
         ac_rfl
 
 /-- block execution keeps `xor = xor of the snapshot hashes of the unspent set` -/
-theorem exec_preserves_xor {s s' : State} {b g : Block} {G : Nat} (harb : s.cfg.arb = false)
+theorem exec_preserves_xor {s s' : State} {b g : Block} {G : Nat} (hinj : HashInj b.txns)
     (hg : s.chain.head? = some g) (hinv : Inv s G) (hx : s.xor = xorOf s.unspent)
     (hwf : ∀ t ∈ b.txns, WfSound t) (h : execSigned s b = .ok s') : s'.xor = xorOf s'.unspent := by
+  obtain ⟨hv, hp, _, _, _⟩ := accepted_block_facts hinj hg h
   obtain ⟨_, hpb, _, s1, hs1, hu, _, hxor, _⟩ := execSigned_ok h
-  obtain ⟨_, _, ⟨txns, hpt, _⟩, _⟩ := processBlock_ok hg hpb
-  obtain ⟨_, _, hv, hp, _, _⟩ := processTransactions_nonarb harb hpt
   obtain ⟨⟨spent, hsp, hx1⟩, _, hun, _⟩ := unspentProcessBlock_ok hs1
   have hins : (blockInputs b).Nodup := by
     apply nodup_block_inputs _ hp
